@@ -85,7 +85,7 @@ func runCase(k *mon.Case) {
 	mp.MinRelayTxFee = 0 // let zero-fee transactions into the pool: the priority area is part of the quantifier
 	mp.DisableRelayPriority = true
 	pol := policy(r)
-	ps, err := poolsim.New(k, g, node.Config{UtxoCacheMaxSize: []uint64{0, 1 << 30}[r.Intn(2)]}, mp, pol)
+	ps, err := poolsim.New(k, g, node.Config{UtxoCacheMaxSize: []uint64{0, 1 << 25}[r.Intn(2)]}, mp, pol)
 	if err != nil {
 		k.Failf("harness:open", "%v", err)
 		return
@@ -127,7 +127,7 @@ func runConcurrent(k *mon.Case) {
 	r := k.Rand
 	g := chaingen.New(node.NewParams(node.FamRegtest), node.FamRegtest, r)
 	mp := node.DefaultMemPolicy()
-	ps, err := poolsim.New(k, g, node.Config{UtxoCacheMaxSize: 1 << 30}, mp, node.DefaultMinePolicy())
+	ps, err := poolsim.New(k, g, node.Config{UtxoCacheMaxSize: 1 << 25}, mp, node.DefaultMinePolicy())
 	if err != nil {
 		k.Failf("harness:open", "%v", err)
 		return
